@@ -102,9 +102,11 @@ class Explorer:
         self.index = index
         self.contracts = contracts
         self.by_target = {}
+        self.by_target_all = defaultdict(list)      # several contracts may share a target (disjoint operand types)
         for c in contracts.values():
             if c.target:
                 self.by_target[c.target] = c
+                self.by_target_all[c.target].append(c)
         self.invariants = invariants
         self.types = TypeParser(index, ['fpy2.number', 'fpy2.utils', 'fpy2', 'fpy2.ast', 'fpy2.analysis',
                                         'spec.c02', 'fpy2.transform.path', 'fpy2.transform.cursor', 'fpy2.transform.error'])
@@ -168,27 +170,98 @@ class Explorer:
         return vals
 
     def hash_model(self, P, v):
-        raise Unsupported('hash() of builtin value (use a contract with the hash model)')
+        # assumed stdlib contract (DESIGN H3): hash(int i) == hash(Fraction(i)) == H(i) for one uninterpreted H: Q -> Z
+        from .values import is_fraclike, is_intlike
+        from .intrinsics import PYHASH
+        from .values import as_z3real
+        if is_intlike(v) or is_fraclike(v):
+            return PYHASH(as_z3real(v))
+        raise Unsupported('hash() of builtin value (only int / Fraction are modelled)')
 
     def frac_part(self, P, v, attr):
-        """numerator / denominator of a symbolic Fraction v: integers n, d with d >= 1 and v == n/d
-        (one pair per term and path; lowest terms are NOT modelled, stated in the C06 contract notes)"""
-        memo = P.__dict__.setdefault('_fracparts', {})
+        """
+        numerator / denominator of a symbolic Fraction v: integers n, d with d >= 1 and v == n/d
+        (one pair per term and path).  Of 'lowest terms' only "n, d not both even" is stated
+        (all that statements about powers of two can use); full coprimality is left unspecified.
+        """
+        cache = P.__dict__.setdefault('_frac_parts', {})
         key = v.get_id()
-        if key not in memo:
+        if key not in cache:
+            # -w: Fraction.__neg__ keeps the denominator and negates the numerator
+            w = None
+            if z3.is_app(v) and v.decl().kind() == z3.Z3_OP_UMINUS:
+                w = v.arg(0)
+            elif z3.is_app(v) and v.decl().kind() == z3.Z3_OP_MUL and v.num_args() == 2 \
+                    and z3.is_rational_value(v.arg(0)) and v.arg(0).numerator_as_long() == -1 \
+                    and v.arg(0).denominator_as_long() == 1:
+                w = v.arg(1)
+            if w is not None:
+                nw = self.frac_part(P, w, 'numerator')
+                dw = self.frac_part(P, w, 'denominator')
+                cache[key] = (-nw, dw, v)
+                return cache[key][0] if attr == 'numerator' else cache[key][1]
             base = v.decl().name() if z3.is_const(v) else P.fresh_name('frac')
             n, d = z3.Int(base + '#num'), z3.Int(base + '#den')
-            P.assume(z3.And(d >= 1, z3.ToReal(n) == v * z3.ToReal(d)), fact=True)
-            memo[key] = (n, d, v)
-        return memo[key][0 if attr == 'numerator' else 1]
+            P.assume(z3.And(d >= 1, v == z3.ToReal(n) / z3.ToReal(d), z3.ToReal(n) == v * z3.ToReal(d),
+                            z3.Or(n % 2 != 0, d % 2 != 0), z3.Implies(v == 0, z3.And(n == 0, d == 1)),
+                            (n > 0) == (v > 0), (n < 0) == (v < 0)), fact=True)
+            cache[key] = (n, d, v)
+        n, d, _ = cache[key]
+        return n if attr == 'numerator' else d
 
     def external_contract(self, name):
         return self.externals.get(name)
 
-    def contract_for(self, info: FunctionInfo):
+    def _type_matches(self, v, t) -> bool:
+        from .values import is_boollike, is_fraclike, is_intlike
+        k = t[0]
+        if isinstance(v, Lazy):
+            return True
+        if k == 'union':
+            return any(self._type_matches(v, a) for a in t[1])
+        if k == 'int':
+            return is_intlike(v)
+        if k == 'bool':
+            return is_boollike(v)
+        if k == 'float':
+            return isinstance(v, (float, SymFloat))
+        if k == 'frac':
+            return is_fraclike(v)
+        if k == 'none':
+            return v is None
+        if k == 'obj':
+            return isinstance(v, SObj) and v.cls is not None and self.index.is_subclass(v.cls, t[1])
+        if k == 'enum':
+            return isinstance(v, EnumV) and v.cls == t[1]
+        return True
+
+    def _select_contract(self, P, info: FunctionInfo, args, kwargs):
+        """among several contracts of one target: the first whose declared parameter types fit the actual arguments"""
+        try:
+            bound = self.bind_target(P, info, args, kwargs or {})
+        except SymRaise:
+            return None
+        for c in self.by_target_all[info.qualname]:
+            ok = True
+            for p_, tstr in c.params.items():
+                if p_ not in bound:
+                    continue
+                t = self.types.parse_str(tstr, info.module.name, info.cls)
+                if not self._type_matches(bound[p_], t):
+                    ok = False
+                    break
+            if ok:
+                return c
+        return None
+
+    def contract_for(self, info: FunctionInfo, P=None, args=None, kwargs=None):
         c = self.by_target.get(info.qualname)
         if c is None:
             return None
+        if P is not None and len(self.by_target_all[info.qualname]) > 1:
+            c = self._select_contract(P, info, args, kwargs)
+            if c is None:
+                return None
         cur = self.current
         if c.inline:
             return None
@@ -678,6 +751,18 @@ class Explorer:
         else:
             g = as_z3bool(goal)
         formulas = list(facts_pc) + [z3.Not(g)]
+        if self.current is not None and self.current.opts.get('solve_eqs'):
+            # opt-in preprocessing: eliminate constants defined by equalities (callee post `r.f == term`)
+            # before the pow2/bl axioms are instantiated; equisatisfiable, so `unsat` is preserved
+            try:
+                goal_ = z3.Goal()
+                for f in formulas:
+                    goal_.add(f)
+                sub = z3.Then('simplify', 'solve-eqs')(goal_)
+                if len(sub) == 1:
+                    formulas = [f for f in sub[0]] or [z3.BoolVal(True)]
+            except z3.Z3Exception:
+                pass
         ax, _ = theory.instantiate(formulas, quant=self.quant)
         s = z3.Solver()
         s.set('timeout', timeout_ms or self.timeout_ms)
